@@ -108,3 +108,161 @@ func SP(rc *RC, prop string, floor int) {
 		}
 	}
 }
+
+// SS: stack geometry agreement. StackDense has two implementations of one copy scheme: the raw
+// block copy (denseSimpleStack) and the iterator copy (denseViewStack -> doViewStack). Both cut
+// the result into `batches` groups of blocks of `blockSize` elements; the two numbers must be
+// the same terms over the same arguments in both, on every path. Variables are bound
+// structurally (the counting loop's bound and the destination cursor's increment in the block
+// copy; the arguments handed to doViewStack in the iterator copy), parameters by position.
+func SS(rc *RC) {
+	rc.S.Declare("SS", "stack geometry agreement: the raw block-copy stack and the iterator stack compute the block size and the number of batches by the same terms (a special case or a different stride source in one of them is reported)", 1)
+	geo := func(key string, view bool) (map[string]bool, string, string) {
+		fi := anchor(rc, "SS", key)
+		if fi == nil {
+			return nil, "-", "unresolved"
+		}
+		pos := rc.P.Pos(fi.Decl.Pos())
+		_, tree := sCanon(rc, fi)
+		// positional parameter names
+		ren := map[string]string{}
+		i := 0
+		for _, f := range fi.Decl.Type.Params.List {
+			for _, n := range f.Names {
+				ren["$"+n.Name] = fmt.Sprintf("$p%d", i)
+				i++
+			}
+		}
+		norm := func(s string) string {
+			return ldIdent.ReplaceAllStringFunc(s, func(w string) string {
+				if v, ok := ren[w]; ok {
+					return v
+				}
+				return w
+			})
+		}
+		paths, ok := ir.EnumPaths(tree, 5000)
+		if !ok {
+			return nil, pos, "too many paths"
+		}
+		out := map[string]bool{}
+		for _, p := range paths {
+			for i, st := range p.Steps {
+				env := pathEnv(ir.Path{Steps: p.Steps[:i]})
+				if view {
+					j := strings.Index(st.Head, "doViewStack(")
+					if j < 0 {
+						continue
+					}
+					args := splitArgs(st.Head[j+len("doViewStack(") : strings.LastIndex(st.Head, ")")])
+					if len(args) < 4 {
+						return nil, pos, "doViewStack call with fewer than 4 arguments"
+					}
+					out["block="+norm(stripOld(substEnv(args[2], env)))+" batches="+norm(stripOld(substEnv(args[3], env)))] = true
+					continue
+				}
+				if st.Kind != "loop" {
+					continue
+				}
+
+				// loop head: for (BOUND > %i) ; ...
+				h := st.Head
+				if !strings.HasPrefix(h, "for (") {
+					continue
+				}
+				cond := h[len("for "):]
+				if k := strings.Index(cond, " ; "); k >= 0 {
+					cond = cond[:k]
+				}
+				if !strings.HasPrefix(cond, "(") || !strings.HasSuffix(cond, ")") {
+					continue
+				}
+				parts := splitTopOp(cond[1:len(cond)-1], " > ")
+				if len(parts) != 2 {
+					continue
+				}
+				bound := stripOld(parts[0])
+				// destination cursor increment: %d = (Y + %d)
+				block := ""
+				for _, k := range st.Kids {
+					if (k.Kind != "let" && k.Kind != "store") || !strings.HasPrefix(k.Value, "(") || !strings.HasSuffix(k.Value, ")") {
+						continue
+					}
+					ab := splitTopOp(k.Value[1:len(k.Value)-1], " + ")
+					if len(ab) != 2 {
+						continue
+					}
+					other := ""
+					if ab[0] == k.Target {
+						other = ab[1]
+					} else if ab[1] == k.Target {
+						other = ab[0]
+					}
+					if other != "" && strings.Contains(ir.Render(st.Kids), "copyDenseSliced($retVal, "+k.Target) {
+						block = stripOld(other)
+						break
+					}
+				}
+				if block == "" {
+					continue
+				}
+				m := []string{"", bound}
+				out["block="+norm(substEnv(block, env))+" batches="+norm(substEnv(m[1], env))] = true
+			}
+		}
+		if len(out) == 0 {
+			return nil, pos, "block size / batch count not found"
+		}
+		return out, pos, ""
+	}
+	a, pos, e1 := geo("tensor.(StdEng).denseSimpleStack", false)
+	b, _, e2 := geo("tensor.(StdEng).denseViewStack", true)
+	key := "denseSimpleStack~denseViewStack"
+	if a == nil || b == nil {
+		rc.S.Undec("SS", key, pos, strings.TrimSpace(e1+" "+e2))
+		return
+	}
+	set := func(m map[string]bool) string {
+		var s []string
+		for k := range m {
+			s = append(s, k)
+		}
+		sortStrings(s)
+		return strings.Join(s, " | ")
+	}
+	if set(a) == set(b) {
+		rc.S.Ok("SS", key, pos, set(a))
+	} else {
+		rc.S.Viol("SS", key, pos, fmt.Sprintf("the two stack implementations disagree on the copy geometry:\n block copy: %s\n iterator copy: %s", set(a), set(b))).Sig = set(a) + " <> " + set(b)
+	}
+}
+
+func stripOld(s string) string {
+	for strings.HasPrefix(s, "old(") && strings.HasSuffix(s, ")") && balanced(s[4:len(s)-1]) {
+		s = s[4 : len(s)-1]
+	}
+	for strings.HasPrefix(s, "(") && strings.HasSuffix(s, ")") && balanced(s[1:len(s)-1]) {
+		s = s[1 : len(s)-1]
+	}
+	return s
+}
+
+// splitTopOp splits s at the top-level occurrences of op (outside parentheses and brackets).
+func splitTopOp(s, op string) []string {
+	var out []string
+	d, last := 0, 0
+	for i := 0; i < len(s); i++ {
+		switch s[i] {
+		case '(', '[', '{':
+			d++
+		case ')', ']', '}':
+			d--
+		}
+		if d == 0 && strings.HasPrefix(s[i:], op) {
+			out = append(out, s[last:i])
+			last = i + len(op)
+			i += len(op) - 1
+		}
+	}
+	return append(out, s[last:])
+}
